@@ -83,21 +83,23 @@ Definition f_replace (E : aenv) (f : fobj) (src tgt : atom) (portion : Q) : fobj
   | None => formula_of_dict E atoms (f_density f)
   end.
 
-(* the code as it stands, for the cases where it differs: TypeError on an unknown density
-   with the source present; self-substitution goes through the general branch *)
-Definition f_replace_code (E : aenv) (f : fobj) (src tgt : atom) (portion : Q) : option fobj :=
+(* the code as it stands (periodictable/formulas.py, _isotope_substitution, after repairs 7a61cac and b97d1be), branch
+   by branch: "if source in atoms and source is not target" - general substitution, the density scaled only when it
+   is known; otherwise the formula is rebuilt unchanged *)
+Definition f_replace_code (E : aenv) (f : fobj) (src tgt : atom) (portion : Q) : fobj :=
   let atoms := f_atoms f in
   match dget atoms src with
   | Some ns =>
-      match f_density f with
-      | None => None
-      | Some d =>
-          let mass := f_mass E f in
-          let mass_reduction := ns * portion * (e_mass E src - e_mass E tgt) in
-          Some (formula_of_dict E (substituted atoms src tgt ns portion)
-                                (Some (d * (mass - mass_reduction) / mass)))
-      end
-  | None => Some (formula_of_dict E atoms (f_density f))
+      if negb (atom_eqb src tgt) then
+        let mass := f_mass E f in
+        let mass_reduction := ns * portion * (e_mass E src - e_mass E tgt) in
+        let density := match f_density f with
+                       | Some d => Some (d * (mass - mass_reduction) / mass)
+                       | None => None
+                       end in
+        formula_of_dict E (substituted atoms src tgt ns portion) density
+      else formula_of_dict E atoms (f_density f)
+  | None => formula_of_dict E atoms (f_density f)
   end.
 
 (* ------------------------------------------------------------------ volumes *)
